@@ -41,8 +41,8 @@ def ident_table(b, enum):
 def run(ctx):
     F = ctx.F
     ENUM = M + "parser::InstructionIdent"
-    idents = {k.split(" as ")[0].lstrip("<").rsplit("::", 1)[1]: v for k, v in F.strconsts.items() if k.endswith("ManifestInstruction>::IDENT")}
-    ids = {k.split(" as ")[0].lstrip("<").rsplit("::", 1)[1]: v for k, v in F.consts.items() if k.endswith("ManifestInstruction>::ID")}
+    idents = {k.split(" as ")[0].lstrip("<").rsplit("::", 1)[-1]: v for k, v in F.strconsts.items() if k.endswith("ManifestInstruction>::IDENT")}
+    ids = {k.split(" as ")[0].lstrip("<").rsplit("::", 1)[-1]: v for k, v in F.consts.items() if k.endswith("ManifestInstruction>::ID")}
     ctx.rule("T8: the IDENT strings and the ID discriminators of all ManifestInstruction impls are pairwise distinct")
     ctx.floor("instruction-types", len(idents), 35)
     ctx.ob("idents|pairwise-distinct", len(set(idents.values())) == len(idents), f"{len(idents)} instruction idents, {len(set(idents.values()))} distinct")
